@@ -237,6 +237,66 @@ def main(ctx: Ctx) -> int:
                         break
         obs["same_value"] = same
         traces.append({"tid": len(traces) + 1, "kind": "text", "t": ["none"], "obs": obs, "text": text, "origin": "split literal", "shape": "split-literal"})
+    # rates written with user variables (@var), whole files through the real reader and generator: in KROME the @var lines are assignments
+    # executed in file order before the rates, so a variable assigned twice has its LAST value, and a variable may be written with an earlier
+    # one or with the reader's temperature shortcuts.  The generated EvalRates is evaluated statement by statement (C semantics).
+    from naunet.network import Network
+    from common import render
+    import creader
+    VARFILES = {
+        # assigned twice, nothing in between depends on it: the last assignment is the value
+        "reassigned": ["@var:user_k=1.5d0*Tgas", "@var:user_k=4.d0*Tgas**0.5d0", "@var:user_a=2.0d0", "@format:idx,R,R,P,P,rate",
+                       "1,H,H,H2,,1.0d-10*user_k", "2,H2,H,H,H,user_k*user_a*1.0d-12", "3,H,H+,H2+,,2.0d-9/user_k**2"],
+        "shortcuts": ["@var:kx=2.0d0*invT", "@var:ky=kx*T32+sqrTgas", "@format:idx,R,R,P,P,rate", "1,H,H,H2,,1.0d-10*kx*T32", "2,H2,H,H,H,ky**(-0.5d0)*1.0d-11"],
+        "chain": ["@var:a1=3.0d0", "@var:a2=a1**2", "@var:a3=a1*a2-1.0d0", "@format:idx,R,P,P,rate", "1,H2,H,H,a1*1.0d-17", "2,H2+,H+,H,a3/a2*1.0d-17"],
+        # assigned twice with a variable in between that was computed from the FIRST value
+        "reassigned-after-dependent": ["@var:kbase=1.0d-9", "@var:kscaled=2.0d0*kbase", "@var:kbase=3.0d-9", "@format:idx,R,R,P,P,rate",
+                                         "1,H,H,H2,,kscaled*sqrTgas", "2,H2,H,H,H,kbase*1.0d-3"],
+    }
+    DECLRE = re.compile(r"(?:^|[;{}\n])\s*(?:realtype|double)\s+(\w+)\s*=\s*([^;]*);")
+    for fi, (fname, flines) in enumerate(VARFILES.items()):
+        fpath = ctx.sub("in") / f"vars_{fi}.krome"
+        fpath.write_text("\n".join(flines) + "\n")
+        rates_f = [ln.split(",")[-1] for ln in flines if ln[0].isdigit()]
+        try:
+            net = Network(filelist=str(fpath), fileformats="krome")
+            out = ctx.scratch / "r" / f"vars_{fi}"
+            render(net, "cvode", "dense", out, templates=["src/naunet_rates.cpp.j2"])
+            text = creader.strip_comments((out / "src/naunet_rates.cpp").read_text())
+            body = text[text.index("int EvalRates"):text.index("int EvalHeatingRates")]
+            decls = [(m.group(1), m.group(2)) for m in DECLRE.finditer(body)]
+            kst = {st["i"]: st["expr"] for st in creader.read_rates(text)}
+            err = ""
+        except Exception as e:   # noqa
+            decls, kst, err = [], {}, f"{type(e).__name__}: {str(e)[:100]}"
+        for ri, ftext in enumerate(rates_f):
+            obs = {"accepted": not err, "valid": True, "tree": ["none"], "out": kst.get(ri, ""), "err": err, "same_value": True}
+            if not err:
+                for T in (20.0, 997.0, 8000.0):
+                    base = {"Tgas": T, "invT": 1.0 / T, "T32": T / 300.0, "Te": T * 8.617343e-5, "invTe": 1.0 / (T * 8.617343e-5),
+                            "lnTe": math.log(T * 8.617343e-5), "sqrTgas": math.sqrt(T), "nH": 1e4}
+                    try:
+                        fenv = dict(base, exp=math.exp, sqrt=math.sqrt, log=math.log, log10=math.log10, AB={})
+                        for ln in flines:
+                            if ln.startswith("@var:"):
+                                nm, rhs = ln[5:].split("=", 1)
+                                fenv[nm.strip()] = fortran_value(rhs, fenv)
+                        want = fortran_value(ftext, fenv)
+                        cenv = {"Tgas": T, "nH": 1e4}
+                        for nm, rhs in decls:
+                            if "u_data" in rhs:
+                                continue
+                            cenv[nm] = cexpr.evaluate(cexpr.parse(rhs), cenv)
+                        got = cexpr.evaluate(cexpr.parse(kst[ri]), cenv)
+                    except Exception as e:   # noqa   (an undeclared name, an unparsable statement: not the same value)
+                        obs["same_value"], obs["err"] = False, f"{type(e).__name__}: {str(e)[:80]}"
+                        break
+                    if not (want == got or abs(want - got) <= 1e-12 * max(abs(want), abs(got))):
+                        obs["same_value"], obs["err"] = False, f"T={T}: Fortran {want!r}, generated {got!r}"
+                        break
+            traces.append({"tid": len(traces) + 1, "kind": "text", "t": ["none"], "obs": obs, "text": f"{ftext}   [file: {' | '.join(flines[:4])} ...]",
+                           "origin": f"user variables, file {fname!r}: {obs['err']}", "shape": f"user-variables,case={fname}"})
+    cov["rates_with_user_variables"] = sum(1 for t in traces if t["shape"].startswith("user-variables"))
     v = validate_traces(ctx, "Trace_Expr.tla", "Trace_Expr.cfg", [{k: t[k] for k in ("tid", "kind", "t", "obs")} for t in traces], "expr", chunk=3000,
                         extra_top={"alias": alias})
     cov["traces_validated_against_impl"] = len(traces)
